@@ -317,7 +317,8 @@ func c10(e *env, chunkedL1 bool) {
 								for _, fk := range fks {
 									sts := []uint16{0}
 									if fk == "status" {
-										if thorough {
+										if thorough || (cf.deploy == "l1l2" && cf.proto == "bin" && !cf.locked && cf.l1 == "std") {
+											// every status on the main and on the batch port of the standard configuration
 											sts = faultStatuses
 										} else {
 											// quick: three statuses per position, rotating through the table
@@ -340,6 +341,9 @@ func c10(e *env, chunkedL1 bool) {
 				}
 			}
 		}
+	}
+	if replayArg(e) == "" && !chunkedL1 && !tailOnly {
+		c15L2Down(w) // a backend that cannot be reached when a client connects is a backend fault too
 	}
 	nhang := 0
 	for _, c := range cases {
